@@ -30,6 +30,7 @@ Counter p_moved_from_reuse("probe.moved_from_container_reassigned");
 Counter p_copy_then_mutate("probe.mutation_with_live_copy");
 Counter p_cap0("probe.capacity_zero_container");
 Counter p_self_assign("probe.self_copy_assignment");
+Counter p_append_self("probe.append_of_own_range");
 Counter p_range_overwrite("probe.range_insert_before_end");
 Counter p_emplace_alias("probe.emplace_argument_aliases_own_element");
 Counter p_moved_from_walk("probe.moved_from_container_observed");
@@ -316,6 +317,7 @@ enum Kind
     K_DESTROY,
     K_WRITE,
     K_MOVED_FROM_OBSERVE,
+    K_APPEND_SELF, // v.push_back(v.begin(), v.end()): the source range lies in the container itself
     K_N
 };
 
@@ -349,6 +351,7 @@ const std::vector<OpSchema>& fv_schema()
         { "destroy", { "obj" } },
         { "write", { "obj", "idx", "val", "how" } },
         { "moved_from_observe", { "obj" } },
+        { "append_self", { "obj" } },
     };
     return s;
 }
@@ -408,6 +411,8 @@ std::string argclass(const Op& op, size_t size, size_t cap)
         return static_cast<size_t>(op.a[2]) > static_cast<size_t>(op.a[1]) ? "overflow" : "fits";
     case K_RITERATE:
         return size == 0 ? "empty" : "nonempty";
+    case K_APPEND_SELF:
+        return 2 * size > cap ? "overflow" : "fits";
     default:
         return "-";
     }
@@ -1295,6 +1300,30 @@ struct Exec
             expect.seq[idx] = v;
             break;
         }
+        case K_APPEND_SELF:
+        {
+            if (!normal(sl) || !T::copyable)
+            {
+                executed = false;
+                break;
+            }
+            if constexpr (T::copyable)
+            {
+                size_t n = sl.m.seq.size();
+                bool fits = 2 * n <= sl.m.cap;
+                must_raise = !fits && n > 0;
+                p_append_self++;
+                res = guarded([&] { sl.p->push_back(sl.p->begin(), sl.p->end()); });
+                if (fits)
+                    for (size_t k = 0; k < n; k++)
+                        expect.seq.push_back(sl.m.seq[k]);
+                else
+                    resync = res != RS_OK;
+                if (res != RS_OK && f.fired)
+                    resync = true;
+            }
+            break;
+        }
         case K_MOVED_FROM_OBSERVE:
         {
             if (!sl.m.alive || !sl.m.moved)
@@ -1600,7 +1629,7 @@ public:
                                          K_PUSH_BACK_RANGE, K_INSERT_RANGE, K_EMPLACE_POS, K_EMPLACE_POS,
                                          K_ERASE, K_ERASE, K_POP_BACK, K_AT, K_AT_CONST, K_GET,
                                          K_INDEX_OPS, K_ITERATE, K_RITERATE, K_DATA, K_WRITE,
-                                         K_COPY_ASSIGN, K_MOVE_ASSIGN, K_LIST_ASSIGN, K_DESTROY };
+                                         K_COPY_ASSIGN, K_MOVE_ASSIGN, K_LIST_ASSIGN, K_DESTROY, K_APPEND_SELF };
             int kind = K_EMPLACE_BACK;
             for (int tries = 0; tries < 6; tries++)
             {
@@ -1716,6 +1745,9 @@ public:
                 break;
             case K_DESTROY:
                 t = G();
+                break;
+            case K_APPEND_SELF:
+                t.size = std::min(t.cap, 2 * t.size);
                 break;
             default:
                 break;
